@@ -112,6 +112,7 @@ def run(ctx):
     prej, irej = H.conformance(ctx, 'Conf_RequestHead', outs, 'reqhead')
     ctx.log('TLC evaluated %d cases: P-rejected %d, I-rejected %d' % (len(outs), len(prej), len(irej)))
     shown = {}
+    known = H.load_known('C21')
     byclass = {}
     for i in prej:
         o = outs[i]
@@ -121,7 +122,7 @@ def run(ctx):
             continue
         shown[cls['kind']] = shown.get(cls['kind'], 0) + 1
         T = o['tuples']
-        ctx.violation(('UBSan reported undefined behaviour; ' if o['ub'] else '') + 'request %r (relaxed_header_parser=%d, request_header_max_size=%d) cut at %s: calls answered %s, one-shot parse answers %s' % (
+        H.report(ctx, known, ('UBSan reported undefined behaviour; ' if o['ub'] else '') + 'request %r (relaxed_header_parser=%d, request_header_max_size=%d) cut at %s: calls answered %s, one-shot parse answers %s' % (
             bytes(o['in'])[:100], o['relaxed'], o['limit'], r['cuts'][:12] if r else '?',
             [str(H.tuple_text(T[x]))[:200] for x in (r['mid'][-2:] + [r['fin']] if r else [])], str(H.tuple_text(T[o['one']]))[:300]),
             {'class': cls, 'case': H.project(o), 'run': r, 'line': cs.lines[i][:600]})
